@@ -368,6 +368,10 @@ func spec(c *kase) *expectation {
 		return e
 	}
 
+	if strings.HasPrefix(c.Enc, "get-body") {
+		e.Transport, e.Outcome, e.Why = "get", "get-with-body", "GET carrying a body: only queries may ever run"
+		return e
+	}
 	e.Transport = encTransport[c.Enc]
 	e.Negotiates = e.Transport == "get" || e.Transport == "post"
 
